@@ -130,6 +130,19 @@ pub fn instants_for(z: &RefZone, rng: &mut Rng, n_random: usize, rule_years: usi
                     v.push(inst);
                     v.push(inst + d);
                 }
+                // the turn of the year, in UTC and in both local times (a yearly rule evaluated for
+                // the wrong year shows here and nowhere near a switch-over)
+                let jan1 = cal::unix_from_civil(y + 1, 1, 1, 0, 0, 0);
+                for k in -6..=6i64 {
+                    v.push(jan1 + k * 4 * 3600 + k);
+                }
+                if let Some(dd) = &r.dst {
+                    for off in [r.std_off as i64, dd.off as i64] {
+                        v.push(jan1 - off - 1);
+                        v.push(jan1 - off);
+                        v.push(jan1 - off - 1800);
+                    }
+                }
                 // 29 February / 1 March of leap years: where Jn and n rules differ
                 if cal::is_leap(y) {
                     v.push(cal::unix_from_civil(y, 2, 29, 12, 0, 0));
@@ -943,7 +956,21 @@ pub fn load_case(w: &Work, seed: u64, idx: u64) -> Option<(ZoneCase, Rng)> {
     Some((ZoneCase { label: s.label, source: "synth", bytes: s.spec.build() }, rng))
 }
 
+pub struct RunPlan {
+    pub case: ZoneCase,
+    pub z: RefZone,
+    pub instants: Vec<i64>,
+    pub nanos: Vec<u32>,
+    pub knobs: Knobs,
+}
+
 pub fn one_run(w: &Work, seed: u64, idx: u64, stats: &mut Stats) -> Option<u64> {
+    let plan = plan_run(w, seed, idx, stats)?;
+    execute_plan(seed, idx, plan, stats)
+}
+
+/// Everything a run will do, drawn from (seed, run index) alone.
+pub fn plan_run(w: &Work, seed: u64, idx: u64, stats: &mut Stats) -> Option<RunPlan> {
     let (case, mut rng) = load_case(w, seed, idx)?;
     let z = match tzref::parse_tzif(&case.bytes) {
         Ok(z) => z,
@@ -1016,6 +1043,11 @@ pub fn one_run(w: &Work, seed: u64, idx: u64, stats: &mut Stats) -> Option<u64> 
         upgrade,
         toggles,
     };
+    Some(RunPlan { case, z, instants, nanos, knobs })
+}
+
+fn execute_plan(seed: u64, idx: u64, plan: RunPlan, stats: &mut Stats) -> Option<u64> {
+    let RunPlan { case, z, instants, nanos, knobs } = plan;
     let class = (z.version as u64)
         | (match z.trans.len() {
             0 => 0,
@@ -1106,15 +1138,17 @@ pub fn check(tier: &str, seed: u64) -> i32 {
             one_run(wr, seed, idx, stats);
         },
         |idx| {
-            let doc = match load_case(wr, seed, idx) {
-                Some((case, _)) => Json::obj()
+            let doc = match plan_run(wr, seed, idx, &mut Stats::default()) {
+                Some(p) => knobs_to_json(Json::obj(), &p.knobs, &p.nanos)
                     .set("property", Json::s("C18"))
                     .set("engine", Json::s("tzsim"))
                     .set("invariant", Json::s("Z0-hang"))
                     .set("seed", Json::Int(seed as i128))
                     .set("run", Json::Int(idx as i128))
-                    .set("zone", Json::s(&case.label))
-                    .set("tzif_hex", Json::s(&hex(&case.bytes)))
+                    .set("zone", Json::s(&p.case.label))
+                    .set("tzif_hex", Json::s(&hex(&p.case.bytes)))
+                    .set("instants", Json::Arr(p.instants.iter().map(|t| Json::Int(*t as i128)).collect()))
+                    .set("observed", Json::s("a call into astrolabe did not return within the watchdog limit"))
                     .set("tier", Json::s(tier)),
                 None => Json::obj(),
             };
